@@ -25,6 +25,7 @@ var c20Files = map[string]string{
 	"g1.xml":   "<?xml version=\"1.0\"?>\n<r xmlns:p=\"urn:u\" x=\"1\"><a y=\"l1&#10;l2\">t&amp;&lt;x\nline2</a><p:b p:z=\"3\">two</p:b><!-- c1 --><?pi d1?><a/></r>",
 	"g2.xml":   "<doc><a>alpha</a><a>beta</a><b><a>gamma</a></b></doc>",
 	"g3.xml":   "<r><!-- c\nd --><?pi a\nb?><a>x</a></r>",
+	"g4.xml":   "<r><e/><e>two</e><e a=\"\">three</e><!----><a></a><a>last</a></r>",
 	"d.json":   `{"a": [1, 2.5, "x"], "b": {"a": true}}`,
 	"p.html":   "<!doctype html><html><body><a href=\"u\">link</a><p>para<b>bold</b></p><!--hc--></body></html>",
 	"bad.xml":  "<r><a></r>",
@@ -66,7 +67,7 @@ func (f c20Flags) args() []string {
 	return a
 }
 
-var c20Exprs = []string{"/*", "//a", "//@*", "//text()", "//comment()", "//processing-instruction()", "count(//*)", "string(//@*)", "//nosuch", "1 = 1", "//p:b", "$v", "concat($v, '!', count(//a))", "//namespace::*", "//a | //b", "/", "//a/ancestor::*", "//*[last()]", "(("}
+var c20Exprs = []string{"/*", "//a", "//@*", "//text()", "//comment()", "//processing-instruction()", "count(//*)", "string(//@*)", "//nosuch", "1 = 1", "//p:b", "$v", "concat($v, '!', count(//a))", "//namespace::*", "//a | //b", "/", "//a/ancestor::*", "//*[last()]", "((", "//e", "//*[not(node())]", "//@a | //e", "//comment() | //a", "//e[1]"}
 
 // c20Type mirrors the documented type detection: -t, else the extension's media type.
 func c20Type(path string, flagT string) (string, string) {
@@ -351,6 +352,7 @@ func C20(c *run.Check) {
 		{"html without doctype", []string{"nodoctype.html", "p.html"}, ""},
 		{"missing file", []string{"nope.xml", "g2.xml"}, ""},
 		{"newlines in comments and PIs", []string{"g3.xml", "g2.xml"}, ""},
+		{"first selected node has an empty string value", []string{"g4.xml", "g1.xml"}, ""},
 	}
 	var flags []c20Flags
 	for m := 0; m < 16; m++ {
